@@ -181,10 +181,11 @@ var (
 func concCoverage(ts []concTemplate) (tags, filters map[string]int, missing []string) {
 	tags, filters = map[string]int{}, map[string]int{}
 	for _, t := range ts {
-		for _, m := range concTagRe.FindAllStringSubmatch(t.Src, -1) {
+		src := strings.NewReplacer("<<", "{{", ">>", "}}", "<%", "{%", "%>", "%}").Replace(t.Src) // a Custom round respells the sources
+		for _, m := range concTagRe.FindAllStringSubmatch(src, -1) {
 			tags[m[1]]++
 		}
-		for _, m := range concFilterRe.FindAllStringSubmatch(t.Src, -1) {
+		for _, m := range concFilterRe.FindAllStringSubmatch(src, -1) {
 			filters[m[1]]++
 		}
 	}
@@ -239,6 +240,7 @@ type concSpec struct {
 	Procs     int            `json:"procs"`
 	Iters     int            `json:"iters"` // random-mix operations per goroutine (after the lock-step phase)
 	Strict    bool           `json:"strict"`
+	Custom    bool           `json:"custom"` // the engine is configured with Engine.Delims("<<", ">>", "<%", "%>") and every source is respelled
 	Templates []concTemplate `json:"templates"`
 	Bindings  string         `json:"bindings"`
 	Dir       string         `json:"dir"` // work directory (spec, include files, race logs, result)
@@ -267,9 +269,22 @@ func concMakeSpec(round, n, procs int, seed uint64, tier string) *concSpec {
 	if tier == "thorough" {
 		iters = 120
 	}
-	return &concSpec{Round: round, Seed: seed, N: n, Procs: procs, Iters: iters, Strict: round%5 == 4,
+	spec := &concSpec{Round: round, Seed: seed, N: n, Procs: procs, Iters: iters, Strict: round%5 == 4, Custom: round%3 == 1,
 		Templates: concTemplates(g), Bindings: concBindings(g).Enc()}
+	if spec.Custom {
+		for i := range spec.Templates {
+			spec.Templates[i].Src = concRespell(spec.Templates[i].Src)
+		}
+	}
+	return spec
 }
+
+// concRespell writes a default-delimiter source with the custom delimiters of a Custom round (the fixed
+// templates contain no other occurrence of these character pairs than their delimiters, raw bodies aside,
+// which are respelled alike on purpose: the result is what is compared, concurrent against sequential)
+var concRespeller = strings.NewReplacer("{{", "<<", "}}", ">>", "{%", "<%", "%}", "%>")
+
+func concRespell(src string) string { return concRespeller.Replace(src) }
 
 // ---- the stream (parent side) --------------------------------------------------------------
 
@@ -495,6 +510,9 @@ func concEngine(spec *concSpec) *liquid.Engine {
 	if spec.Strict {
 		e.StrictVariables()
 	}
+	if spec.Custom {
+		e.Delims("<<", ">>", "<%", "%>")
+	}
 	e.RegisterFilter("concx", func(s string) string { return "<" + s + ">" })
 	e.RegisterTag("conctag", func(c render.Context) (string, error) { return "[" + c.TagArgs() + "]", nil })
 	e.RegisterBlock("concblock", func(c render.Context) (string, error) {
@@ -506,6 +524,9 @@ func concEngine(spec *concSpec) *liquid.Engine {
 		"inc/part.html": `part({{ s | downcase }}{% for i in arr %}{% cycle "p", "q" %}{% endfor %})`,
 		"inc/loop.html": `loop{{ i }}{% if i == 1 %}first{% endif %}`,
 	} {
+		if spec.Custom {
+			src = concRespell(src)
+		}
 		if _, err := e.ParseTemplateAndCache([]byte(src), path, 1); err != nil {
 			panic(err)
 		}
@@ -635,6 +656,9 @@ func concWorkerMain(specPath string) int {
 		if err := os.MkdirAll(filepath.Dir(p), 0o755); err != nil {
 			fmt.Fprintln(os.Stderr, "concworker:", err)
 			return 3
+		}
+		if spec.Custom {
+			src = concRespell(src)
 		}
 		if err := os.WriteFile(p, []byte(src), 0o644); err != nil {
 			fmt.Fprintln(os.Stderr, "concworker:", err)
